@@ -50,6 +50,7 @@ func main() {
 	out := flag.String("out", "", "output directory")
 	full := flag.String("full", "", "packages (relative to the module) to instrument fully")
 	clock := flag.String("clock", "", "packages to instrument in clock mode (time import only)")
+	sealed := flag.String("sealed", "", "packages to instrument fully but sealed: their operations are switch points only when they block")
 	harness := flag.String("harness", "", "directory with files to add to /repo packages (tree mirrors /repo)")
 	shim := flag.String("shim", "/verif/shim", "shim source directory")
 	noTests := flag.Bool("droptests", true, "remove the packages' own _test.go files from the build")
@@ -102,6 +103,13 @@ func main() {
 		// stub so that harness files can refer to the generated VerifReset during type checking
 		pkgOverlay[filepath.Join(repo, p, "zz_verif_reset.go")] = []byte("//go:build verif\n\npackage " + pkgNameOf(filepath.Join(repo, p)) + "\n\nfunc VerifReset() {}\n")
 	}
+	for _, p := range splitList(*sealed) {
+		if mode[modPath+"/"+p] == "" {
+			mode[modPath+"/"+p] = "sealed"
+			patterns = append(patterns, "./"+p)
+			pkgOverlay[filepath.Join(repo, p, "zz_verif_reset.go")] = []byte("//go:build verif\n\npackage " + pkgNameOf(filepath.Join(repo, p)) + "\n\nfunc VerifReset() {}\n")
+		}
+	}
 	for _, p := range splitList(*clock) {
 		if mode[modPath+"/"+p] == "" {
 			mode[modPath+"/"+p] = "clock"
@@ -141,6 +149,9 @@ func main() {
 				die("%v", err)
 			}
 			ip := &instrPkg{pkg: p, mode: m, outDir: outDir, overlay: overlay}
+			if m == "sealed" {
+				ip.mode, ip.sealed = "full", true
+			}
 			ip.run()
 			if *noTests {
 				ents, _ := os.ReadDir(filepath.Join(repo, rel))
@@ -193,6 +204,7 @@ type instrPkg struct {
 	outDir  string
 	overlay map[string]string
 	tmpN    int
+	sealed  bool
 
 	initFuncs []string                   // renamed init functions, in file order
 	varInits  map[*ast.ValueSpec]string  // spec -> generated init function name (per Rhs)
@@ -498,6 +510,14 @@ func (ip *instrPkg) rewriteFile(f *ast.File, name string) {
 			}
 		case *ast.SelectStmt:
 			c.Replace(ip.rewriteSelect(x, call))
+		case *ast.FuncDecl:
+			if ip.sealed && x.Body != nil && !isHarnessFile(name) {
+				x.Body.List = append(sealStmts(vs), x.Body.List...)
+			}
+		case *ast.FuncLit:
+			if ip.sealed && !isHarnessFile(name) {
+				x.Body.List = append(sealStmts(vs), x.Body.List...)
+			}
 		}
 		return true
 	}
@@ -512,6 +532,13 @@ func (ip *instrPkg) rewriteFile(f *ast.File, name string) {
 		if !have {
 			astutil.AddNamedImport(fset, f, "vsched", vschedPkg)
 		}
+	}
+}
+
+func sealStmts(vs func(string) ast.Expr) []ast.Stmt {
+	return []ast.Stmt{
+		&ast.ExprStmt{X: &ast.CallExpr{Fun: vs("SealEnter")}},
+		&ast.DeferStmt{Call: &ast.CallExpr{Fun: vs("SealLeave")}},
 	}
 }
 
